@@ -6,10 +6,14 @@ Import ListNotations.
 Local Open Scope N_scope.
 
 (* For EVERY header/version/name and EVERY sequence of Archive* calls (all primitive kinds,
-   Raw blocks, strings, plain and weak pointers - null, backward, forward, into the
-   object that contains them, to objects that are only positioned -, object positions,
-   objects of the host classes with such calls as their body) whose values fit their C++
-   types: a reader that makes the same sequence of calls on the bytes the writer produced
+   Raw blocks, byte strings - any bytes, NUL included -, plain and weak pointers - null,
+   backward, forward, into the object that contains them, to objects that are only
+   positioned -, object positions, script variables of every kind - none, string, integer,
+   float, char, dictionary string, listener, reference, container, safe container, vector,
+   arrays and constant arrays to any depth with their holders shared between variables or
+   containing themselves, script pointers -, objects of the host classes with such calls
+   as their body) whose values fit their C++ types and whose "new holder / shared holder"
+   marks are the ones the writer computes (wf_case): a reader that makes the same sequence of calls on the bytes the writer produced
    - it only knows the shape of the items - completes without error and delivers every
    value unchanged and every pointer aimed at the reader's object that stands for the
    pointer's target; a pointer whose target was never archived comes back null.
@@ -61,6 +65,30 @@ Example C10_example_round_trip :
   read true true ex_hdr (shape ex_items) (write ex_hdr ex_items) = OOk ex_items /\
   length (write ex_hdr ex_items) = 244%nat.
 Proof. vm_compute. split; reflexivity. Qed.
+
+(* script variables: an array shared by two variables and containing itself, a listener
+   reference written before the listener, a constant array, a vector, a keyed variable *)
+Definition ex_vars : list item :=
+  [ ILeaf (LVar (Some (Some [107])) [mkTok 1002 (TArrayNew 5000 3 7 7 0 2); mkTok 2000 (TPrim VInt 2);
+                                     mkTok 2001 (THolderRef HArray (Some 5000)); mkTok 2002 (TPrim VInt 1);
+                                     mkTok 2003 (TPtr VListener (Some 5))]);
+    IObj 2 5 [LVar None [mkTok 1003 (THolderRef HArray (Some 5000))]; LPtr false (Some 5)];
+    ILeaf (LVar None [mkTok 1004 (TPtr VRef (Some 1002))]);
+    ILeaf (LVar None [mkTok 1005 (TVector [0; 0; 0; 0; 0; 0; 128; 63; 0; 0; 0; 64])]);
+    ILeaf (LVar (Some None) [mkTok 1006 (TConstArrayNew 5001 0 2); mkTok 2004 (TCStr (Some [97; 0; 98])); mkTok 2005 TNone]);
+    ILeaf (LStr [0; 65; 0]) ].
+
+Example C10_example_script_variables :
+  wf_case ex_hdr ex_vars = true /\ all_targets_archived ex_vars = true /\
+  read true true ex_hdr (shape ex_vars) (write ex_hdr ex_vars) = OOk ex_vars /\
+  length (write ex_hdr ex_vars) = 503%nat.
+Proof. vm_compute. repeat split; reflexivity. Qed.
+
+(* a token list that calls a holder new although it is already in the archive is not a
+   description of any host state: wf_case rejects it *)
+Example C10_example_inconsistent_marks :
+  wf_case ex_hdr [ILeaf (LVar None [mkTok 1 (TConstArrayNew 9 0 0)]); ILeaf (LVar None [mkTok 2 (TConstArrayNew 9 0 0)])] = false.
+Proof. vm_compute. reflexivity. Qed.
 
 (* a pointer to an object that is not in the archive comes back null *)
 Example C10_example_dangling_target :
